@@ -70,3 +70,16 @@ def ignore_whitespace_option():
         return sorted({v["kind"] for v in s.viol}), [dict(v) for v in s.viol[:3]]
     finally:
         s.destroy()
+
+
+def porcelain_blame_of_a_dirty_work_tree():
+    """D93: the work tree has one more (uncommitted) line than HEAD; `git-ai blame --porcelain f.txt` / `--line-porcelain` abort with
+    exit 1 in the middle of their output (the summary of commit 0000000 is looked up with `cat-file`); git blame names the all-zero
+    commit for that line. The default format and `--incremental` handle the same work tree."""
+    s, c09 = _two_commit_file("d93")
+    try:
+        s.human_write("f.txt", s.read("f.txt") + [s.line("human")])      # not committed
+        c09.compare_one(s, "f.txt", [], "w-dirty", {})
+        return sorted({v["kind"] + "@" + " ".join(v.get("opts") or []) + ("/" + v["flavour"] if v.get("flavour") else "") for v in s.viol}), [dict(v) for v in s.viol[:4]]
+    finally:
+        s.destroy()
